@@ -416,6 +416,7 @@ class C19(Check):
         specs.append(S.SENS(0, horizon=1.0, interval=0.1, cap=3, n=0))
         specs.append(S.SENS(K, interval=1, cap=2, n=1, placeholder='processor', two_cms=True))
         specs.append(S.SENS(K, interval=0.5, cap=None, n=0, ocap=1, two_cms=True, cms_twice=False))
+        specs.append(S.SENS(K, interval=1, cap=2, n=0, second=0.5, same_name=True))
         # sensors and a CMS created while the line is running / between two runs: same schedule from their creation on
         late = S.LATE(1, creates=[[7], [8], [9]], horizon=4, name='sens')
         specs += [late, S.with_splits(late)]
